@@ -16,7 +16,7 @@ TITLE = "Convention detection and binding are deterministic and stable"
 MC = {"quick": [("MC_C11_defs", "MC_C11_quick.cfg", 16)], "thorough": [("MC_C11_defs", "MC_C11.cfg", 16)]}
 TRACE = ("Trace_C11", "Trace_C11.cfg")
 REQUIRED = ["Register", "Detect", "Access", "Construct", "Bind", "Copy", "access-refused", "bind-refused", "bind-ok",
-            "builtin-tie", "manual-wins", "nothing-matches", "access-cached", "access-after-manual-bind",
+            "builtin-tie", "manual-wins", "builtin-registered", "nothing-matches", "access-cached", "access-after-manual-bind",
             "detected-CFGrid1D", "detected-CFGrid2D", "detected-ShocSimple", "detected-ShocStandard", "detected-UGrid",
             "detected-X", "detected-Y"]
 RULE = ("(a) every one of the 256 detection feature vectors (CF coordinate rank none / 1-D / 2-D / mixed x ems_version x "
@@ -83,6 +83,13 @@ def cases(tier: str, seed: int) -> list[dict]:
             ev = [{"a": "Detect", "obj": 1}, {"a": "Register", "cls": rng.choice(["X", "Y"])}, {"a": "Detect", "obj": 1},
                   {"a": "Register", "cls": rng.choice(["X", "Y"])}, {"a": "Detect", "obj": 1}, {"a": "Detect", "obj": 1}]
             out.append({"src": "vec", "init": [c], "events": ev})
+            # built-in classes registered by hand as well (they are then both registered and entry points)
+            bi = ["ShocStandard", "ShocSimple", "UGrid", "CFGrid1D", "CFGrid2D"]
+            if bits in (7, 15, 59, 63, 23, 39) or rng.random() < 0.15:
+                k1, k2 = rng.sample(bi, 2)
+                out.append({"src": "vec", "init": [c], "events": [{"a": "Detect", "obj": 1}, {"a": "Register", "cls": k1}, {"a": "Detect", "obj": 1},
+                                                                  {"a": "Register", "cls": rng.choice(["X", k2])}, {"a": "Detect", "obj": 1},
+                                                                  {"a": "Register", "cls": k2}, {"a": "Detect", "obj": 1}, {"a": "Access", "obj": 1}]})
             if ll in ("1d", "2d") and bits in (0, 1, 3):    # CF coordinates marked in the other allowed ways
                 for variant in (1, 2):
                     out.append({"src": "vec", "init": [c], "events": [dict(e) for e in ev], "variant": variant})
